@@ -24,7 +24,13 @@ type c18Cmd struct {
 	Caller string `json:"caller"`
 	FailN  int    `json:"fail_n"` // the handler fails the first FailN deliveries
 	Empty  bool   `json:"empty"`  // ... with an error whose text is empty
+	Wraps  string `json:"wraps"`  // ... with an error that wraps context.Canceled ("canceled") / context.DeadlineExceeded ("deadline"): an error like any other
 }
+
+type c18WrapErr struct{ inner error }
+
+func (c18WrapErr) Error() string   { return "scripted handler error" }
+func (e c18WrapErr) Unwrap() error { return e.inner }
 
 type c18EmptyErr struct{}
 
@@ -98,6 +104,9 @@ func runC18(c *Ctx) error {
 		// a handler error with an empty text is still an error
 		cases = append(cases, c18Case{Class: "empty-error-text", AckErrors: ack,
 			Callers: []c18Caller{{"c1e", "drain", 1, false}, {"c2e", "sendwithreply", 1, false}, {"c3", "drain", 1, false}}})
+		// a handler error that wraps a context error (the handler's own database call timed out, say) is a handler error
+		cases = append(cases, c18Case{Class: "context-error-from-handler", AckErrors: ack,
+			Callers: []c18Caller{{"c1x", "drain", 1, false}, {"c2y", "sendwithreply", 1, false}, {"c3", "drain", 1, false}, {"c4y", "readone", 2, false}}})
 		// the publish of the reply fails once: the command must be Nacked and redelivered whatever AckCommandErrors says
 		for _, fail := range []int{0, 1} {
 			cases = append(cases, c18Case{Class: "reply-publish-fails", AckErrors: ack, Callers: []c18Caller{{"c1", "drain", fail, true}, {"c2", "readone", 0, false}}})
@@ -287,6 +296,12 @@ func c18Body(r *tr.Run, cs c18Case) {
 			if cmd.Empty {
 				return c18Res{cmd.Caller, n}, c18EmptyErr{}
 			}
+			switch cmd.Wraps {
+			case "canceled":
+				return c18Res{cmd.Caller, n}, c18WrapErr{context.Canceled}
+			case "deadline":
+				return c18Res{cmd.Caller, n}, c18WrapErr{context.DeadlineExceeded}
+			}
 			return c18Res{cmd.Caller, n}, errors.New("scripted handler error")
 		}
 		return c18Res{cmd.Caller, n}, nil
@@ -424,6 +439,11 @@ func c18Caller1(r *tr.Run, cs c18Case, cl c18Caller, bus *cqrs.CommandBus, backe
 	ctx, cancelCtx := context.WithCancel(context.Background())
 	defer cancelCtx()
 	cmd := &c18Cmd{Caller: cl.Name, FailN: cl.FailN, Empty: strings.HasSuffix(cl.Name, "e")}
+	if strings.HasSuffix(cl.Name, "x") {
+		cmd.Wraps = "canceled"
+	} else if strings.HasSuffix(cl.Name, "y") {
+		cmd.Wraps = "deadline"
+	}
 	logReply := func(rep requestreply.Reply[c18Res]) {
 		var te requestreply.ReplyTimeoutError
 		if rep.Error != nil && errors.As(rep.Error, &te) {
@@ -455,6 +475,10 @@ func c18Caller1(r *tr.Run, cs c18Case, cl c18Caller, bus *cqrs.CommandBus, backe
 		// the listener finishes asynchronously: its hook is the only observable
 		return
 	}
+	if cs.Timeout > 0 {
+		// the listener's own time-out will end it -- on a loaded machine even before SendWithReplies has returned
+		r.Emit("ended", "c", cl.Name, "nochan", false)
+	}
 	ch, cancel, err := requestreply.SendWithReplies[c18Res](ctx, bus, backend, cmd)
 	if err != nil {
 		r.Emit("error", "what", err.Error())
@@ -464,9 +488,6 @@ func c18Caller1(r *tr.Run, cs c18Case, cl c18Caller, bus *cqrs.CommandBus, backe
 	end := func() {
 		r.Emit("ended", "c", cl.Name, "nochan", false)
 		cancel()
-	}
-	if cs.Timeout > 0 {
-		r.Emit("ended", "c", cl.Name, "nochan", false) // the listener's own time-out will end it
 	}
 	drain := func() {
 		deadline := time.After(HangBound)
